@@ -29,6 +29,11 @@ var (
 	Loaded      bool
 )
 
+var novelNamed = map[uint64]bool{}
+
+// Names holds the named integer constants (package.NAME -> value) found by the last Extract.
+var Names = map[string]uint64{}
+
 func init() {
 	if p := os.Getenv("VERIF_DICT"); p != "" {
 		if f, err := os.Open(p); err == nil {
@@ -43,6 +48,14 @@ func Load(r io.Reader) {
 	sc := bufio.NewScanner(r)
 	for sc.Scan() {
 		f := strings.Fields(sc.Text())
+		if len(f) == 3 && f[0] == "N" {
+			// a named constant the baseline does not declare: its value counts as novel even when the number itself
+			// occurs elsewhere in the tree (0xaa, 3, ... given a new meaning by an edit)
+			if v, err := strconv.ParseUint(f[2], 10, 64); err == nil {
+				novelNamed[v] = true
+			}
+			continue
+		}
 		if len(f) != 2 {
 			continue
 		}
@@ -64,6 +77,17 @@ func Load(r io.Reader) {
 			Tokens = append(Tokens, b)
 			if f[0] == "B" {
 				NovelTokens = append(NovelTokens, b)
+			}
+		}
+	}
+	if len(novelNamed) <= 12 { // an edit declares a few constants; a tree that renames everything is not drawn from
+		have := map[uint64]bool{}
+		for _, v := range NovelInts {
+			have[v] = true
+		}
+		for v := range novelNamed {
+			if !have[v] {
+				NovelInts = append(NovelInts, v)
 			}
 		}
 	}
@@ -94,10 +118,11 @@ func synthesize() {
 	for _, a := range bs {
 		for _, b := range bs {
 			for _, c := range bs {
-				NovelTokens = append(NovelTokens, []byte{a, b, c})
 				if len(small16) > 0 {
 					w := small16[0] - 1
 					NovelTokens = append(NovelTokens, []byte{byte(w >> 8), byte(w), a, b, c})
+				} else {
+					NovelTokens = append(NovelTokens, []byte{a, b, c})
 				}
 			}
 		}
@@ -134,6 +159,27 @@ func Extract(repo string) (ints []uint64, toks [][]byte, err error) {
 			af, perr := parser.ParseFile(fset, f, nil, 0)
 			if perr != nil {
 				return nil, nil, perr
+			}
+			for _, d := range af.Decls {
+				gd, ok := d.(*ast.GenDecl)
+				if !ok || gd.Tok != token.CONST {
+					continue
+				}
+				for _, sp := range gd.Specs {
+					vs, ok := sp.(*ast.ValueSpec)
+					if !ok {
+						continue
+					}
+					for i, nm := range vs.Names {
+						if i < len(vs.Values) && nm.Name != "_" {
+							if v := fold(vs.Values[i]); v != nil && v.Kind() == constant.Int {
+								if u, ok := constant.Uint64Val(v); ok {
+									Names[pkg+"."+nm.Name] = u
+								}
+							}
+						}
+					}
+				}
 			}
 			ast.Inspect(af, func(n ast.Node) bool {
 				switch x := n.(type) {
@@ -247,11 +293,16 @@ func fold(e ast.Expr) (v constant.Value) {
 func Write(w io.Writer, ints []uint64, toks [][]byte, baseline io.Reader) {
 	baseI := map[uint64]bool{}
 	baseT := map[string]bool{}
+	baseN := map[string]bool{}
 	have := false
 	if baseline != nil {
 		sc := bufio.NewScanner(baseline)
 		for sc.Scan() {
 			f := strings.Fields(sc.Text())
+			if len(f) == 3 && (f[0] == "n" || f[0] == "N") {
+				baseN[f[1]] = true
+				continue
+			}
 			if len(f) != 2 {
 				continue
 			}
@@ -279,5 +330,17 @@ func Write(w io.Writer, ints []uint64, toks [][]byte, baseline io.Reader) {
 			tag = "B"
 		}
 		fmt.Fprintf(w, "%s %s\n", tag, h)
+	}
+	var names []string
+	for n := range Names {
+		names = append(names, n)
+	}
+	sort.Strings(names)
+	for _, n := range names {
+		tag := "n"
+		if len(baseN) > 0 && !baseN[n] {
+			tag = "N"
+		}
+		fmt.Fprintf(w, "%s %s %d\n", tag, n, Names[n])
 	}
 }
